@@ -38,7 +38,8 @@ def sh(cmd, cwd=None, env=None, timeout=None, check=True):
     if cmd and cmd[0] == "tlc":
         # TLC unpacks its standard modules into a fresh directory under java.io.tmpdir on every run
         # and leaves it there: keep that inside the work directory and remove it afterwards
-        tmpdir = os.path.join(WORK, "tlctmp_%d_%d" % (os.getpid(), int(time.time() * 1000) % 100000000))
+        import uuid
+        tmpdir = os.path.join(WORK, "tlctmp_%d_%s" % (os.getpid(), uuid.uuid4().hex[:10]))
         os.makedirs(tmpdir, exist_ok=True)
         e["JAVA_TOOL_OPTIONS"] = (e.get("JAVA_TOOL_OPTIONS", "") + " -Djava.io.tmpdir=" + tmpdir).strip()
     t0 = time.time()
@@ -100,8 +101,71 @@ def workdir(name):
 
 
 # ------------------------------------------------------------------ TLC
-def tlc_trace(trace, metadir, timeout=9000, spec="Trace"):
-    """Validates one ndjson trace. Returns dict(accepted, events, matched, unmatched, mons, states)."""
+CHUNK_EVENTS = 250000
+
+
+def split_trace(trace, chunk=None, boundary="reset"):
+    """Splits a recorded trace at scenario boundaries (`Reset` events) into pieces of about `chunk`
+    events: TLC aborts on behaviours that are too long (seen at 1.3 M events), and scenarios are
+    independent of each other (every `Reset` re-initialises the specification state).
+    Returns [(path, offset_in_events)]."""
+    chunk = chunk or CHUNK_EVENTS
+    with open(trace, errors="replace") as f:
+        total = sum(1 for _ in f)
+    if total <= chunk + chunk // 2:
+        return [(trace, 0)]
+    pieces = []
+    out = None
+    n_in = 0
+    with open(trace, errors="replace") as f:
+        for k, line in enumerate(f):
+            if out is None or (n_in >= chunk and (boundary == "line" or line.startswith('{"e":"Reset"'))):
+                if out:
+                    out.close()
+                path = "%s.part%d" % (trace, len(pieces))
+                pieces.append((path, k))
+                out = open(path, "w")
+                n_in = 0
+            out.write(line)
+            n_in += 1
+    if out:
+        out.close()
+    return pieces
+
+
+def tlc_trace(trace, metadir, timeout=9000, spec="Trace", chunk=None, boundary="reset"):
+    """Validates one ndjson trace (in pieces if it is very long). Returns dict(accepted, events, matched,
+    unmatched, mons, states). boundary="line": every event stands for itself (CLI runs, which carry
+    their own absolute index `i`)."""
+    pieces = split_trace(trace, chunk, boundary)
+    if len(pieces) == 1:
+        return tlc_trace_one(trace, metadir, timeout, spec)
+    from concurrent.futures import ThreadPoolExecutor
+    with ThreadPoolExecutor(max_workers=3) as ex:
+        outs = list(ex.map(lambda a: tlc_trace_one(a[1][0], "%s_p%d" % (metadir, a[0]), timeout, spec),
+                           enumerate(pieces)))
+    res = {"accepted": True, "mons": [], "states": 0, "distinct": 0, "raw_tail": "", "wall": 0.0, "events": 0,
+           "pieces": len(pieces)}
+    for (path, off), o in zip(pieces, outs):
+        for h in o["mons"]:
+            if isinstance(h.get("i"), int) and boundary == "reset":
+                h["i"] += off
+            res["mons"].append(h)
+        res["states"] += o.get("states", 0)
+        res["distinct"] += o.get("distinct", 0)
+        res["wall"] += o.get("wall", 0.0)
+        res["events"] += o.get("events", 0) or 0
+        if not o["accepted"] and res["accepted"]:
+            res["accepted"] = False
+            res["matched"] = off + (o.get("matched", 0) or 0)
+            res["unmatched"] = o.get("unmatched", "")
+            res["raw_tail"] = o.get("raw_tail", "")
+        shutil.rmtree("%s_p%d" % (metadir, pieces.index((path, off))), ignore_errors=True)
+        os.remove(path)
+    return res
+
+
+def tlc_trace_one(trace, metadir, timeout=9000, spec="Trace"):
     env = {"TRACE": trace, "JAVA_TOOL_OPTIONS": "-Xss1g -Xmx6g"}
     cmd = ["tlc", "-workers", "1", "-metadir", metadir, "-cleanup", "-noGenerateSpecTE",
            "-config", spec + ".cfg", spec + ".tla"]
@@ -177,13 +241,13 @@ def coverage_counts(out):
 
 
 # ------------------------------------------------------------------ traces of the real solver
-def record(fams, seed, tier, count, outdir, name="t", start=0, stride=1):
+def record(fams, seed, tier, count, outdir, name="t", start=0, stride=1, env=None):
     build_harness()
     trace = os.path.join(outdir, name + ".ndjson")
     scn = os.path.join(outdir, name + ".scn.ndjson")
     sh([PVH, "trace", "--fams", ",".join(fams), "--seed", str(seed), "--tier", tier,
         "--count", str(count), "--start", str(start), "--stride", str(stride),
-        "--out", trace, "--scn", scn], timeout=9000)
+        "--out", trace, "--scn", scn], timeout=9000, env=env)
     return trace, scn
 
 
@@ -255,7 +319,7 @@ def scenario_features(s):
     """Structural facts about a scenario that findings are matched on."""
     f = {"lsu": False, "iterate": False, "valsel": set(), "kinds": set(), "interrupt": False,
          "root_only": False, "neg_time_cumulative": False, "element_alias": False,
-         "restart_every_conflict_no_db": False, "assume_core": False}
+         "restart_every_conflict_no_db": False, "assume_core": False, "nolearn_with_assumptions": False}
     if s is None:
         return f
     o = s.get("opts", {})
@@ -270,6 +334,8 @@ def scenario_features(s):
             f["iterate"] = True
         if op == "assume_solve" and st.get("core"):
             f["assume_core"] = True
+        if op == "assume_solve" and st.get("assum") and o.get("resolver") == "nolearn":
+            f["nolearn_with_assumptions"] = True
         if "br" in st:
             f["valsel"] |= value_selectors_of(st["br"])
         if st.get("stop_at") is not None:
@@ -458,6 +524,29 @@ def mc_part(res, module, cfg=None, expect_ok=True, workers=8, timeout=1500, requ
             if cc.get(a, (0, 0))[0] == 0:
                 raise ToolError("vacuity guard: action %s never taken in %s" % (a, name))
     return out
+
+
+def proof_part(res, module, deps, timeout=900):
+    """TLAPS: every proof obligation of spec/<module>.tla has to be discharged (run in a scratch copy:
+    tlapm keeps its cache next to the module)."""
+    d = workdir("tlaps_" + module)
+    for m in [module] + list(deps):
+        shutil.copy(os.path.join(SPEC, m + ".tla"), d)
+    rc, out, dt = sh(["tlapm", "--threads", "8", "--cleanfp", module + ".tla"], cwd=d, timeout=timeout, check=False)
+    m = re.search(r"All (\d+) obligations? proved", out)
+    f = re.search(r"(\d+)/(\d+) obligations failed", out)
+    res.cov["parts"].append({"part": module, "kind": "tlaps-proof", "obligations": int(m.group(1)) if m else
+                             (int(f.group(2)) if f else 0), "failed": int(f.group(1)) if f else 0,
+                             "wall_s": round(dt, 1)})
+    shutil.rmtree(d, ignore_errors=True)
+    if m:
+        res.cov["evaluations"] += int(m.group(1))
+        return
+    if f:
+        res.add_hit({"mon": res.prop + ".Proof." + module, "fam": "tlaps", "id": 0, "i": 0,
+                     "w": out[-1500:]}, None, load_findings())
+        return
+    raise ToolError("tlapm gave no verdict on %s:\n%s" % (module, out[-2000:]))
 
 
 def finish(res, tier, seed, level, t0):
@@ -1010,7 +1099,7 @@ def cli_trace_part(res, events, name, spec="Cli"):
             e = dict(e)
             e["i"] = i + 1
             f.write(json.dumps(e) + "\n")
-    out = tlc_trace(trace, os.path.join(d, "meta"), spec=spec, timeout=2400)
+    out = tlc_trace(trace, os.path.join(d, "meta"), spec=spec, timeout=2400, chunk=20000, boundary="line")
     findings = load_findings()
     byid = {e["id"]: e for e in events}
     for hit in out["mons"]:
@@ -1280,10 +1369,13 @@ def check_C20(res, tier, seed):
     d = workdir("C20_twice")
     findings = load_findings()
     fams = ["solve", "configs", "iterate", "optimise", "assume", "clauses", "cumulative", "reif"]
-    count = n(tier, 8, 250)
-    # (1) library runs: the same scenarios in two fresh processes (different ASLR / hash seeds)
-    t1, s1 = record(fams, seed, tier, count, d, name="a")
-    t2, s2 = record(fams, seed, tier, count, d, name="b")
+    count = n(tier, 16, 250)
+    # (1) library runs: the same scenarios in two fresh processes (different ASLR / hash seeds).
+    #     Every search is cut after a few hundred polls in the quick tier: one long search would
+    #     otherwise be most of the compared events for some seeds and none of them for others.
+    cap = {"PVH_POLL_CAP": "400"} if tier == "quick" else None
+    t1, s1 = record(fams, seed, tier, count, d, name="a", env=cap)
+    t2, s2 = record(fams, seed, tier, count, d, name="b", env=cap)
     env = {"TRACE": t1, "TRACE2": t2, "JAVA_TOOL_OPTIONS": "-Xss1g -Xmx8g"}
     md = os.path.join(d, "meta")
     rc, out, dt = sh(["tlc", "-workers", "1", "-metadir", md, "-cleanup", "-noGenerateSpecTE",
@@ -1345,7 +1437,7 @@ def check_C20(res, tier, seed):
             if proof:
                 pp = path + ".proof"
                 fl += ["--proof-path", pp]
-            so, se, rc = run_cli(path, fl, timeout=60)
+            so, se, rc = run_cli(path, fl, timeout=240)
             pb = ""
             if pp and os.path.exists(pp):
                 pb = open(pp, errors="replace").read()
@@ -1356,6 +1448,11 @@ def check_C20(res, tier, seed):
                         pb += open(extra, errors="replace").read()
                         os.remove(extra)
             outs.append((norm(so), rc, pb))
+        if any(o[1] == -9 for o in outs):
+            # a run that hit the harness' wall-clock limit produced no (complete) output: there is
+            # nothing to compare (seen under load in the thorough tier); counted, not judged
+            res.cov["events"]["cli_timeouts"] = res.cov["events"].get("cli_timeouts", 0) + 1
+            return
         ncli += 1
         if outs[0] != outs[1]:
             nd += 1
